@@ -372,6 +372,10 @@ func (fc *FCtx) coerce(v Val, t types.Type) Val {
 		v.GoT = t
 		return v
 	}
+	if isErrorType(t) && v.S != nil && v.S.Kind != KInt {
+		// a concrete error value (custom error type) stored in an error variable: some non-nil error
+		return Val{T: fmt.Sprint(1000 + fc.U.ErrCode("custom:"+v.S.Name)), S: SInt, GoT: t}
+	}
 	if v.S != s && !(v.S.Kind == KInt && s.Kind == KInt) {
 		if v.S.Kind == KInt && v.T == "0" && s.Kind != KInt {
 			// nil literal
